@@ -5,6 +5,7 @@ package main
 
 import (
 	"fmt"
+	"go/ast"
 	"go/constant"
 	"go/token"
 	"go/types"
@@ -42,6 +43,9 @@ type Prog struct {
 	sigFuncs map[string][]*ssa.Function // address-taken functions by signature string
 	callers  map[*ssa.Function][]ssa.CallInstruction
 	anonOf   map[*ssa.Function][]*ssa.Function
+	lowered  map[token.Pos]bool
+	gconst   map[globalCell]*ssa.Const
+	gdirty   map[*ssa.Global]bool
 	norm     *normInfo // set when the program analysed is the normalised copy (helpers outside the vocabulary expanded)
 }
 
@@ -561,6 +565,9 @@ func (P *Prog) findCallPath(fn *ssa.Function, pred func(ssa.CallInstruction) boo
 
 func constInt(v ssa.Value) (int64, bool) {
 	c, ok := v.(*ssa.Const)
+	if !ok {
+		c, ok = globalConst(v)
+	}
 	if !ok || c.Value == nil {
 		return 0, false
 	}
@@ -573,6 +580,9 @@ func constInt(v ssa.Value) (int64, bool) {
 
 func constString(v ssa.Value) (string, bool) {
 	c, ok := v.(*ssa.Const)
+	if !ok {
+		c, ok = globalConst(v)
+	}
 	if !ok || c.Value == nil || c.Value.Kind() != constant.String {
 		return "", false
 	}
@@ -726,4 +736,176 @@ func (P *Prog) osFlag(name string) int64 {
 		}
 	}
 	return fallback[name]
+}
+
+// loweredDefer: the call was a deferred call of a helper the normalised view expanded away from tail position; the
+// normaliser spells such a call `(f)(args)` at every exit of the expanded body. It ran on a panic too.
+func (P *Prog) loweredDefer(ins ssa.Instruction) bool {
+	if P.norm == nil || ins == nil {
+		return false
+	}
+	if P.lowered == nil {
+		P.lowered = map[token.Pos]bool{}
+		for _, p := range P.Pkgs {
+			for _, f := range p.Syntax {
+				ast.Inspect(f, func(n ast.Node) bool {
+					if c, ok := n.(*ast.CallExpr); ok {
+						if _, par := c.Fun.(*ast.ParenExpr); par {
+							P.lowered[c.Lparen] = true
+						}
+					}
+					return true
+				})
+			}
+		}
+	}
+	return P.lowered[ins.Pos()]
+}
+
+// curProg is the program the running rules look at (one at a time); it lets the value helpers resolve a read of a
+// package-level variable that is only ever given a constant by its declaration.
+var curProg *Prog
+
+type globalCell struct {
+	g    *ssa.Global
+	path string // field indices from the variable down, "" = the variable itself
+}
+
+// globalConst: v reads a package-level variable (or a field of a package-level struct, directly or through a local
+// copy of the whole struct) whose only store in the repository is the constant of its declaration.
+func globalConst(v ssa.Value) (*ssa.Const, bool) {
+	P := curProg
+	if P == nil {
+		return nil, false
+	}
+	if P.gconst == nil {
+		P.gconst = map[globalCell]*ssa.Const{}
+		P.gdirty = map[*ssa.Global]bool{}
+		var cellOf func(a ssa.Value) (globalCell, bool)
+		cellOf = func(a ssa.Value) (globalCell, bool) {
+			switch x := a.(type) {
+			case *ssa.Global:
+				return globalCell{x, ""}, true
+			case *ssa.FieldAddr:
+				if c, ok := cellOf(x.X); ok {
+					return globalCell{c.g, c.path + fmt.Sprintf(".%d", x.Field)}, true
+				}
+			}
+			return globalCell{}, false
+		}
+		fns := append([]*ssa.Function{}, P.Funcs...)
+		for _, sp := range P.RepoPkgs {
+			if f := sp.Func("init"); f != nil {
+				fns = append(fns, f)
+			}
+		}
+		seen := map[*ssa.Function]bool{}
+		for _, fn := range fns {
+			if seen[fn] {
+				continue
+			}
+			seen[fn] = true
+			isInit := fn.Name() == "init" && fn.Synthetic != ""
+			eachInstr(fn, func(ins ssa.Instruction) {
+				switch x := ins.(type) {
+				case *ssa.Store:
+					c, ok := cellOf(x.Addr)
+					if !ok {
+						// the address of the variable (or of a part of it) stored somewhere: it may be written through it
+						if c2, ok2 := cellOf(x.Val); ok2 {
+							P.gdirty[c2.g] = true
+						}
+						return
+					}
+					k, isC := x.Val.(*ssa.Const)
+					if !isInit || !isC {
+						P.gdirty[c.g] = true
+						return
+					}
+					if _, dup := P.gconst[c]; dup {
+						P.gdirty[c.g] = true
+					}
+					P.gconst[c] = k
+				case ssa.CallInstruction:
+					for _, a := range x.Common().Args {
+						if c, ok := cellOf(a); ok {
+							P.gdirty[c.g] = true
+						}
+					}
+				}
+			})
+		}
+	}
+	var cellOfRead func(v ssa.Value, depth int) (globalCell, bool)
+	cellOfRead = func(v ssa.Value, depth int) (globalCell, bool) {
+		if depth > 6 {
+			return globalCell{}, false
+		}
+		switch x := v.(type) {
+		case *ssa.UnOp:
+			if x.Op != token.MUL {
+				return globalCell{}, false
+			}
+			switch a := x.X.(type) {
+			case *ssa.Global:
+				return globalCell{a, ""}, true
+			case *ssa.FieldAddr:
+				// a field of the variable itself, or of a local that holds one copy of it
+				var walk func(fa ssa.Value) (globalCell, bool)
+				walk = func(fa ssa.Value) (globalCell, bool) {
+					switch y := fa.(type) {
+					case *ssa.Global:
+						return globalCell{y, ""}, true
+					case *ssa.FieldAddr:
+						if c, ok := walk(y.X); ok {
+							return globalCell{c.g, c.path + fmt.Sprintf(".%d", y.Field)}, true
+						}
+					case *ssa.Alloc:
+						var src ssa.Value
+						n := 0
+						for _, r := range *y.Referrers() {
+							switch z := r.(type) {
+							case *ssa.Store:
+								if z.Addr == ssa.Value(y) {
+									n++
+									src = z.Val
+								} else {
+									n += 2
+								}
+							case *ssa.FieldAddr:
+								for _, rr := range *z.Referrers() {
+									if _, ld := rr.(*ssa.UnOp); !ld {
+										if _, dbg := rr.(*ssa.DebugRef); !dbg {
+											n += 2
+										}
+									}
+								}
+							case *ssa.DebugRef, *ssa.UnOp:
+							default:
+								n += 2
+							}
+						}
+						if n == 1 && src != nil {
+							return cellOfRead(src, depth+1)
+						}
+					}
+					return globalCell{}, false
+				}
+				return walk(a)
+			}
+		case *ssa.Field:
+			if c, ok := cellOfRead(x.X, depth+1); ok {
+				return globalCell{c.g, c.path + fmt.Sprintf(".%d", x.Field)}, true
+			}
+		case *ssa.ChangeType:
+			return cellOfRead(x.X, depth+1)
+		}
+		return globalCell{}, false
+	}
+	c, ok := cellOfRead(v, 0)
+	if !ok || P.gdirty[c.g] {
+		return nil, false
+	}
+	k, ok := P.gconst[c]
+	return k, ok
 }
